@@ -1411,13 +1411,14 @@ open Rx.Conc.Amb
 /-- `is_win` returned true for the call in progress and the delivery has not started yet -/
 def won : Amb.Pc → Bool
   | .sub | .fetch | .start | .fSub | .tClaim | .tClr | .tTake | .tStart => true
-  | .idle | .fetchI | .win | .cb | .abort1 | .abort2 | .claimI | .winC | .tCb | .fin => false
+  | .idle | .fetchI | .win | .cb | .abort1 | .abort2 | .claimI | .winC | .tCb
+  | .fLock | .fPick _ | .fU _ _ | .fClear | .fEnd => false
 
 /-- claimed the subscriber's fn_next, complete callback not started -/
 def pre : Amb.Pc → Bool
   | .tClr | .tTake | .tStart => true
   | .sub | .fetch | .start | .fSub | .tClaim | .idle | .fetchI | .win | .cb | .abort1 | .abort2 | .claimI | .winC | .tCb
-  | .fin => false
+  | .fLock | .fPick _ | .fU _ _ | .fClear | .fEnd => false
 
 structure Inv (s : Amb.State) : Prop where
   cnt : s.threads.countP (fun th => pre th.pc) + termCount s.log ≤ (if s.sN then 0 else 1)
@@ -1462,9 +1463,10 @@ macro "dischAmb" h:ident hi:ident : tactic => `(tactic| (
   (try simp only [Amb.State.upd, Amb.State.isSub]) <;>
   grind [won, pre, Amb.wins, mem_logNext, termCount_append_next, termCount_append_complete]))
 
-theorem inv_step {s s' : Amb.State} {i : Nat} (h : Inv s) (hs : Amb.step s i = some s') : Inv s' := by
+theorem inv_step {s s' : Amb.State} {l : Amb.Label} (h : Inv s) (hs : Amb.step s l = some s') : Inv s' := by
   unfold Amb.step at hs
-  cases hi : s.threads[i]? with
+  simp only at hs
+  cases hi : s.threads[l.tid]? with
   | none => simp [hi] at hs
   | some th =>
     simp only [hi] at hs
@@ -1475,6 +1477,20 @@ theorem inv_step {s s' : Amb.State} {i : Nat} (h : Inv s) (hs : Amb.step s i = s
       · simp only [Option.some.injEq] at hs; subst hs; dischAmb h hi
       · simp only [Option.some.injEq] at hs; subst hs; dischAmb h hi
       · cases hs
+    case abort1 =>
+      split at hs
+      · simp only [Option.some.injEq] at hs; subst hs; dischAmb h hi
+      · cases hs
+    case fClear =>
+      split at hs
+      · simp only [Option.some.injEq] at hs; subst hs; dischAmb h hi
+      · cases hs
+    case fPick pend =>
+      split at hs
+      · simp only [Option.some.injEq] at hs; subst hs; dischAmb h hi
+      · split at hs
+        · simp only [Option.some.injEq] at hs; subst hs; dischAmb h hi
+        · cases hs
     all_goals (simp only [Option.some.injEq] at hs; subst hs; dischAmb h hi)
 
 theorem inv_init (scripts : List (List Data × Bool)) : Inv (Amb.init scripts) := by
@@ -1522,7 +1538,7 @@ def ambEx : List (List Data × Bool) := [([.int 1, .int 2], true), ([.int 3], tr
     input 1's item and complete are delivered -/
 example : ∃ s, Amb.Reachable ambEx s ∧ s.winner = some 1 ∧ s.log = [(1, .next (.int 3)), (1, .complete)] ∧
     s.threads.all (fun th => th.pc = .idle && th.todo.isEmpty && !th.fin) = true :=
-  ⟨_, Amb.reachable_of_run .init (Amb.rep 2 0 ++ Amb.rep 17 1 ++ Amb.rep 6 0) _ rfl, by decide +kernel,
+  ⟨_, Amb.reachable_of_run .init (Amb.rep 2 0 ++ Amb.rep 19 1 ++ Amb.pk 1 1 ++ Amb.rep 4 1 ++ Amb.rep 6 0) _ rfl, by decide +kernel,
     by decide +kernel, by decide +kernel⟩
 
 /- ===================== part j ===================== -/
